@@ -260,6 +260,31 @@ def make_case(ctx, g):
         for op in w.ops:
             if op["op"] == "add_ns" and (op["p"], op["u"]) not in said:
                 said.append((op["p"], op["u"]))
+        # which URI a prefix ends up with when two namespaces with one prefix reach a container through one *set* of values is
+        # decided by Python's set order (hash of a class object: differs from process to process), not by the model's insertion
+        # order: prefixes that this history binds to more than one URI, and generated ones (ex_1, dn_2), are asked of the
+        # implementation and its control only; all others also go through the model
+        import re as _re
+        bound = {}
+
+        def _scan(x):
+            if isinstance(x, dict):
+                for k in ("q", "v", "t"):
+                    y = x.get(k)
+                    if isinstance(y, list) and len(y) == 3 and all(isinstance(z, str) for z in y):
+                        bound.setdefault(y[0], set()).add(y[1])
+                for y in x.values():
+                    _scan(y)
+            elif isinstance(x, list):
+                for y in x:
+                    _scan(y)
+        for op in w.ops:
+            _scan(op)
+            if op["op"] == "add_ns":
+                bound.setdefault(op["p"], set()).add(op["u"])
+
+        def ambiguous(pfx):
+            return len(bound.get(pfx, ())) > 1 or _re.search(r"_\d+$", pfx) is not None or pfx in ("dn",)
         untouched = None
         if len(mutated_sides) == 1 and not snapshot_alarm:
             untouched = t if "source" in mutated_sides else s
@@ -269,12 +294,26 @@ def make_case(ctx, g):
             twin = ctrl.get(asked) if asked == untouched else None
             diffs = []
             for (pfx, _u) in pool:
-                q = w.vqn(asked, "%s:probe" % pfx)
+                if ambiguous(pfx):
+                    q = w.conts[asked].valid_qualified_name("%s:probe" % pfx)
+                    ctx.count("probe-outside-model")
+                else:
+                    q = w.vqn(asked, "%s:probe" % pfx)
                 if twin is not None:
                     q2 = twin.valid_qualified_name("%s:probe" % pfx)
                     if proto.canon_q(q) != proto.canon_q(q2):
                         diffs.append("'%s:probe' resolves to %s, in the copy to %s" % (pfx, proto.canon_q(q), proto.canon_q(q2)))
             for (pfx, u) in g.rng.sample(pool, min(2, len(pool))):
+                if ambiguous(pfx):
+                    if twin is None:
+                        continue
+                    # outside the model: asked of throw-away copies of the container and of its control, so that neither changes
+                    n = _copy.deepcopy(w.conts[asked]).add_namespace(Namespace(pfx, u))
+                    n2 = _copy.deepcopy(twin).add_namespace(Namespace(pfx, u))
+                    ctx.count("probe-outside-model")
+                    if (n.prefix, n.uri) != (n2.prefix, n2.uri):
+                        diffs.append("add_namespace(%r, %r) answers %s:%s, in the copy %s:%s" % (pfx, u, n.prefix, n.uri, n2.prefix, n2.uri))
+                    continue
                 n = w.add_ns(asked, pfx, u)
                 ctx.count("behaviour-probe")
                 if twin is not None:
